@@ -2,7 +2,7 @@
 from .nlpprop import NlpProp, TRUSTED, ASSUMPTIONS, default_build
 from .. import gen
 
-OPTS = {"methods": ["MS", "SS"], "intgs": ["rk", "expl_euler"], "N_max": 4, "M_max": 3,
+OPTS = {"methods": ["MS", "SS", "DC"], "deg_max": 3, "intgs": ["rk", "expl_euler"], "N_max": 4, "M_max": 3,
         "nc_min": 2, "nc_max": 5, "p_offset": 0.4, "objective": False}
 OPTS_T = dict(OPTS, N_max=6, M_max=4)
 
@@ -13,16 +13,16 @@ def nontrivial(case, mrows):
 
 def build(rng, opts):
     c = default_build(rng, opts)
-    if rng.random() < 0.06:
+    if c["method"]["kind"] != "DC" and rng.random() < 0.08:
         # a constraint no shooting method can place: must be rejected, not ignored
         gen.add_roots_constraint(rng, c)
     return c
 
 
 P = NlpProp("C04", OPTS, OPTS_T, build=build, judge_kinds=[3, 4, 5], judge_obj=False, nontrivial=nontrivial,
-            rule="random OCPs with 2-5 declared constraints: path constraints on grid control|integrator with random "
+            rule="random OCPs with 2-5 declared constraints: path constraints on grid control|integrator (|integrator_roots under DirectCollocation, where algebraic states also occur) with random "
                  "include_first/include_last, forms ==, <=, >=, two-sided, vector valued, mixed x/u/t/p/v/T/t0/DT expressions, "
                  "next/prev/offset(+-1..3) operands, constraint scales; boundary constraints mixing at_t0/at_tf/global symbols; "
-                 "x {MS,SS} x N,M x grids.  Compared: all rows of kinds path/point/freetime and rows of rockit nobody "
+                 "x {MS,SS,DC degree 1..3 radau|legendre} x N,M x grids; plus integrator_roots constraints under shooting methods (must be rejected).  Compared: all rows of kinds path/point/freetime and rows of rockit nobody "
                  "accounts for.  non-trivial = NLP has at least one path or point row; distinct by hash of the case")
 run, replay = P.run, P.replay
